@@ -44,6 +44,10 @@ class FakeMsg:
 
     def __setattr__(self, name, value):
         kind = self._kind(name)
+        if value is None:
+            # proto-plus / protobuf: None means "leave / make unset"
+            self._set.pop(name, None)
+            return
         if isinstance(kind, type) and isinstance(value, dict):
             value = kind(value)
         if kind == "rep" and value is not None:
